@@ -28,13 +28,13 @@ def parsed_commands(script, sxs):
         name = cmd.name
         rec = {"name": name, "terms": [], "formals": [], "params": []}
         if name in ("assert", "assert-soft", "maximize", "minimize"):
-            rec["terms"] = [term_io.export(cmd.args[0])]
+            rec["terms"] = [term_io.export_result(cmd.args[0])]
         elif name in ("check-sat-assuming", "get-value"):
-            rec["terms"] = [term_io.export(t) for t in cmd.args]
+            rec["terms"] = [term_io.export_result(t) for t in cmd.args]
         elif name in ("declare-fun", "declare-const"):
-            rec["terms"] = [term_io.export(cmd.args[0])]
+            rec["terms"] = [term_io.export_result(cmd.args[0])]
         elif name == "define-fun":
-            rec["terms"] = [term_io.export(cmd.args[3])]
+            rec["terms"] = [term_io.export_result(cmd.args[3])]
             rec["formals"] = [v.symbol_name() for v in cmd.args[1]]
             rec["params"] = [ps["l"][0]["s"] for ps in sx["l"][2]["l"]]
         out.append(rec)
